@@ -86,6 +86,9 @@ func C14(c *core.Ctx) {
 		}
 		c14Compare(c, shape, out, withExt, total)
 	}
+	// "the payload unchanged at the end": the payload of a re-injected packet is the packet the data plane handed up,
+	// which is exactly the value octets of the BUFFER_PACKET attribute — without the netlink padding (C13 R7)
+	renameRule(c, "R7", "R3", func() { c13PacketExtent(c) })
 }
 
 // c14Message builds the abstract gtpv1.Message: Flags constant, everything else symbolic.
